@@ -5,7 +5,8 @@ theorems   Cppcheck.RunState.file_findings_independent (for every prefix, file a
            file_result_independent, checkFile_independent, run_eq_map_alone, shown_nonWP_eq_dedup_alone (printed output =
            concatenation of the alone outputs with repeated texts removed), leakOK_after_normal / leakOK_repaired /
            foreignOK_of_cover / supprMatches_exact_file (where the hypotheses come from), four counterexample theorems
-           (F17a, F17b, F17e: hypotheses the code violates; F17d: the code before 8f62378, with leaked_filter_repaired for the tree)
+           (F17a, F17b, F17e: hypotheses the code violates; F17d: the code before 8f62378, with leaked_filter_repaired for the tree),
+           independent_without_inline_suppr / run_independent_without_inline_suppr (no Indep: runs without inline suppressions)
 T          lib/cppcheck.cpp, lib/cppcheck.h: the member variables of CppCheckLogger / CppCheck are exactly the carried fields of the
            model; reset points of checkInternal (resetExitCode first, where clear() is called, which returns come before it);
            function-local statics / mutable globals of lib, cli, simplecpp enumerated and compared with the reviewed list
@@ -14,7 +15,8 @@ C          real binary, generated projects: every file alone (raw reports with -
            (several orders) from the traces; predictions are compared with the real -j1 runs (printed findings in order, exit code),
            with and without a build dir (analyzer-information files, warm cache)
 P_impl     model-free: set of printed non-whole-program findings of the company run = union of the alone runs; per-file
-           analyzer-information contents company = alone; thorough tier also thread / process executors
+           analyzer-information contents company = alone; the same through --project=compile_commands.json with per-file defines
+           (check(FileSettings)); thorough tier also thread / process executors
 """
 import glob, json, os, re, shutil
 import xml.etree.ElementTree as ET
@@ -32,13 +34,18 @@ EXPLANATION = ("Lean: for every run prefix and every per-file analysis function 
                "hypothesis is exercised on the real binary (known findings F17a, F17b, F17c, F17e; F17d repaired by 8f62378). The per-file analysis itself is a "
                "parameter: that it is a function of the file (no hidden static state) is only sampled by the CLI tie and "
                "supported by the enumeration of statics. Outside the model: --safety, plist output, --clang (checkClang never "
-               "resets the filters), library.reportErrors, whole-program data (mFileInfo, unused functions), markup files, "
-               "addons, symbolName / hash suppressions in the generated projects.")
+               "resets the filters), library.reportErrors, whole-program data (mFileInfo, unused functions), addons, symbolName / hash "
+               "suppressions in the generated projects; check(FileSettings) has no Lean function of its own (sampled model-free through "
+               "--project=compile_commands.json), markup files appear only as empty traces. With inline suppressions the main theorems "
+               "are frame theorems (H1 is the independence of the suppression channel as hypothesis: F17a / F17b are true of the code); "
+               "without inline suppressions independent_without_inline_suppr / run_independent_without_inline_suppr discharge H1, H2, H5.")
 THEOREMS = ["Cppcheck.RunState.file_findings_independent", "Cppcheck.RunState.file_result_independent",
             "Cppcheck.RunState.checkFile_independent", "Cppcheck.RunState.run_eq_map_alone",
             "Cppcheck.RunState.shown_nonWP_eq_dedup_alone", "Cppcheck.RunState.leakOK_after_normal",
             "Cppcheck.RunState.leakOK_repaired", "Cppcheck.RunState.foreignOK_of_cover",
-            "Cppcheck.RunState.supprMatches_exact_file",
+            "Cppcheck.RunState.supprMatches_exact_file", "Cppcheck.RunState.stateAfter_supprs_origin",
+            "Cppcheck.RunState.stateAfter_supprs_no_inline", "Cppcheck.RunState.independent_without_inline_suppr",
+            "Cppcheck.RunState.run_independent_without_inline_suppr",
             "Cppcheck.RunState.file_findings_independent_counterexample_foreign_suppression",
             "Cppcheck.RunState.file_findings_independent_counterexample_macro_suppression",
             "Cppcheck.RunState.file_findings_independent_counterexample_leaked_filter_before_repair",
@@ -191,6 +198,29 @@ def translate_state(ctx, res):
     except ValueError as ex:
         res.oblig("translation:checkInternal-reset-points", False, "translation", "unrecognised shape: %s" % ex)
         ok = False
+    # the settings (with the library) cannot be written through the analyzer object: both holders are references to const,
+    # and nothing in lib/cppcheck.cpp casts the constness away (check(FileSettings) works on a copy)
+    c_src = _strip_comments(src)
+    const_ok = (re.search(r"\bconst\s+Settings\s*&\s*mSettings\s*;", _strip_comments(hdr)) is not None and
+                len(re.findall(r"\bconst\s+Settings\s*&\s*mSettings\s*;", c_src)) == 1 and
+                re.search(r"const_cast\s*<\s*(Settings|Library)", c_src) is None and
+                re.search(r"Settings\s+tempSettings\s*=\s*mSettings\s*;", c_src) is not None)
+    res.oblig("translation:settings-are-const", const_ok, "translation",
+              "" if const_ok else "CppCheck / CppCheckLogger no longer hold `const Settings& mSettings`, or a const_cast on Settings / Library appeared, "
+              "or check(FileSettings) no longer copies the settings")
+    ok &= const_ok
+    # the file test of Suppression::isSuppressed is PathMatch for every suppression (model: exactInline = false)
+    try:
+        sup = open(os.path.join(ctx.repo, "lib", "suppressions.cpp"), encoding="utf-8", errors="replace").read()
+        k = sup.index("SuppressionList::Suppression::isSuppressed(const SuppressionList::ErrorMessage &errmsg) const")
+        body, _ = _body(sup, k)
+        b = _strip_comments(body)
+        pm_ok = len(re.findall(r"!fileName\.empty\(\)\s*&&\s*!PathMatch::match\(fileName,\s*errmsg\.getFileName\(\)\)", b)) == 1 and "isInline" not in b
+    except ValueError:
+        pm_ok = False
+    res.oblig("translation:inline-file-test-is-PathMatch", pm_ok, "translation",
+              "" if pm_ok else "Suppression::isSuppressed no longer tests the file name of every suppression with PathMatch::match (the model of record)")
+    ok &= pm_ok
     return info if ok else None
 
 
@@ -353,6 +383,13 @@ def gen_project(rng, stats):
         hdr_div = any(divs[h] for h in incs)
         files[s], remarks[s], _ = gen_text(rng, s, False, rel, stats, force_div=False if hdr_div else None)
     opts = dict(template=rng.choice(TEMPLATES), enable=rng.choice(["all", "all", "warning,style,performance,portability"]), suppress=[])
+    if rng.random() < 0.2:
+        # a markup file (cfg/qt.cfg: .qml, processed after the code) somewhere in the run
+        q = rng.choice(["ui.qml", "sub/view.qml"])
+        files[q] = "import QtQuick 2.0\nItem {\n    function f() { return 1 }\n}\n"
+        srcs.insert(rng.randrange(len(srcs) + 1), q)
+        opts["library"] = "qt"
+        stats("markup-file")
     if rng.random() < 0.3:
         k = rng.random()
         if k < 0.4:
@@ -401,6 +438,8 @@ def tag_of(f):
 
 def base_args(ctx, opts, inline=True, emit=False, supp=True):
     a = [ctx.cppcheck, "-q", "--xml", "--inconclusive", "--enable=" + opts["enable"], "--template=" + opts["template"], "--error-exitcode=9"]
+    if opts.get("library"):
+        a.append("--library=" + opts["library"])
     if inline:
         a.append("--inline-suppr")
     if emit or opts.get("emit"):
@@ -531,9 +570,13 @@ def observe_alone(ctx, d, proj, f):
     """three runs of one file alone: raw reports, dump, the real alone result"""
     opts = proj["opts"]
     rc1, raw, se1 = run_cpp(base_args(ctx, opts, inline=False, emit=True, supp=False) + [f], d)
-    dd = os.path.join(d, "_dump_" + re.sub(r"\W", "_", f))
-    rc2, _, se2 = core.sh([ctx.cppcheck, "-q", "--dump", "--inline-suppr", f], cwd=d, timeout=120)
-    dump = parse_dump(os.path.join(d, f + ".dump"))
+    rc2, _, se2 = core.sh([ctx.cppcheck, "-q", "--dump", "--inline-suppr"] + (["--library=" + opts["library"]] if opts.get("library") else []) + [f],
+                          cwd=d, timeout=120)
+    if f.endswith(".qml"):
+        # markup file: checkInternal returns before anything is read into the logger (no suppressions, no dump)
+        dump = ([], {}, 1)
+    else:
+        dump = parse_dump(os.path.join(d, f + ".dump"))
     try:
         os.remove(os.path.join(d, f + ".dump"))
     except OSError:
@@ -556,11 +599,35 @@ def build_trace(d, proj, f, obs, tags):
             rem.append((hf, line, text))
     # only the remarks of files this translation unit contains are set; a foreign file's remark cannot match its locations anyway
     reports = [enc_finding(x, proj["opts"]["template"], tags.of(x)) for x in non_wp(obs["raw"])]
+    if f.endswith(".qml"):
+        return dict(supprs=[], remarks=None, macros=None, reports=reports, early=True)
     return dict(supprs=S, remarks=rem, macros=macros, reports=reports, early=False)
 
 
 def flags(variant, emit=False):
     return ("1" if emit else "0") + ("1" if variant["clear_at_start"] else "0") + ("1" if variant["exact_inline"] else "0")
+
+
+def classify_one(x, order, traces):
+    """F17a / F17b class of one finding that is missing in a company run, from the suppressions and location macros the files
+    of the run contribute (extracted from their dumps), or None"""
+    loc = x["locs"][0] if x["locs"] else None
+    hit = None
+    if loc:
+        for g in order:
+            for s in traces[g]["supprs"]:
+                if s["type"] == "macro":
+                    # F17b: a macro suppression of another file, the macro name is used on the line of the finding
+                    if s["id"] == x["id"] and s["file"] != loc[0] and any(
+                            s.get("macro") in ns for fm in order for (mf, ml), ns in (traces[fm]["macros"] or {}).items()
+                            if mf == loc[0] and str(ml) == loc[1]):
+                        hit = hit or K_MACRO
+                # F17a: a suppression written in another file whose relative name is a path tail of the finding's file
+                elif s["id"] == x["id"] and s["file"] != loc[0] and loc[0].endswith("/" + s["file"]) and \
+                        (s["type"] != "unique" or str(s["line"]) == loc[1]) and \
+                        (s["type"] != "block" or s["lb"] <= int(loc[1]) <= s["le"]):
+                    hit = K_TAIL
+    return hit
 
 
 def classify(proj, d, order, missing, extra, traces, tags_items, variant):
@@ -578,22 +645,7 @@ def classify(proj, d, order, missing, extra, traces, tags_items, variant):
         if len(texts.get(render(tpl, x), ())) > 1:
             groups.setdefault(K_TEXT, []).append(x)
             continue
-        loc = x["locs"][0] if x["locs"] else None
-        hit = None
-        if loc:
-            for g in order:
-                for s in traces[g]["supprs"]:
-                    if s["type"] == "macro":
-                        # F17b: a macro suppression of another file, the macro name is used on the line of the finding
-                        if s["id"] == x["id"] and s["file"] != loc[0] and any(
-                                s.get("macro") in ns for fm in order for (mf, ml), ns in traces[fm]["macros"].items()
-                                if mf == loc[0] and str(ml) == loc[1]):
-                            hit = hit or K_MACRO
-                    # F17a: a suppression written in another file whose relative name is a path tail of the finding's file
-                    elif s["id"] == x["id"] and s["file"] != loc[0] and loc[0].endswith("/" + s["file"]) and \
-                            (s["type"] != "unique" or str(s["line"]) == loc[1]) and \
-                            (s["type"] != "block" or s["lb"] <= int(loc[1]) <= s["le"]):
-                        hit = K_TAIL
+        hit = classify_one(x, order, traces)
         groups.setdefault(hit, []).append(x)
     return groups
 
@@ -709,7 +761,7 @@ def eval_project(ctx, res, drv, proj, variant, k, orders=None, extra_exec=False)
                                       dict(files=proj["files"], order=o, opts=opts, executor=ex, findings=[tag_of(x) for x in items]),
                                       concrete=True, key=key)
     shutil.rmtree(d, ignore_errors=True)
-    return dict(bad_alone=bad_alone, bad_comp=bad_comp, viol=viol)
+    return dict(bad_alone=bad_alone, bad_comp=bad_comp, viol=viol, traces=traces)
 
 
 # ------------------------------------------------------------------------------------------------
@@ -832,6 +884,65 @@ def bd_checks(ctx, res, variant):
 
 # ------------------------------------------------------------------------------------------------
 
+# ------------------------------------------------------------------------------------------------
+# per-file project settings: CppCheck::check(const FileSettings&) through --project=compile_commands.json
+# ------------------------------------------------------------------------------------------------
+
+def project_run(ctx, d, entries, opts, name):
+    """entries: [(file, [defines])] -> findings of `cppcheck --project=<name>` (paths are absolute in this mode)"""
+    db = [dict(directory=d, file=os.path.join(d, f), command="gcc %s -c %s" % (" ".join("-D" + x for x in defs), f)) for f, defs in entries]
+    json.dump(db, open(os.path.join(d, name), "w"))
+    a = [ctx.cppcheck, "-q", "--xml", "--inconclusive", "--enable=warning,style,performance,portability", "--template=" + T_FULL,
+         "--inline-suppr", "--project=" + name] + ["--suppress=" + x for x in opts["suppress"]]
+    rc, fs, se = run_cpp(a, d)
+    return rc, fs, se
+
+
+def eval_filesettings(ctx, res, proj, k, traces):
+    """model-free: every file alone in a one-entry project vs all files in one project, in two orders; per-file defines"""
+    srcs = [f for f in proj["srcs"] if f.endswith(".c")]
+    if len(srcs) < 2:
+        return
+    d = os.path.join(ctx.tmp, "fs%d" % k)
+    os.makedirs(d, exist_ok=True)
+    write_project(d, proj)
+    rng = ctx.rng
+    defs = {f: ["CFG_%d=%d" % (i, rng.randrange(9))] * (rng.random() < 0.7) for i, f in enumerate(srcs)}
+    union, alone = {}, {}
+    for f in srcs:
+        rc, fs, se = project_run(ctx, d, [(f, defs[f])], proj["opts"], "one.json")
+        if fs is None:
+            res.oblig("machinery:project-run", False, "machinery", "no xml from --project run: " + se[-300:])
+            shutil.rmtree(d, ignore_errors=True)
+            return
+        alone[f] = non_wp(fs)
+        for x in alone[f]:
+            union.setdefault(tag_of(x), x)
+    for o in (sorted(srcs), sorted(srcs, reverse=True)):
+        rc, fs, se = project_run(ctx, d, [(f, defs[f]) for f in o], proj["opts"], "all.json")
+        if fs is None:
+            continue
+        comp = non_wp(fs)
+        gs = set(tag_of(x) for x in comp)
+        res.case("filesettings|%s|%s" % (json.dumps(proj["files"], sort_keys=True), o), len(union) >= 2,
+                 dict(mode="--project", order=o, defines=defs, findings=len(comp)) if k % 5 == 0 else None)
+        res.count("filesettings:runs")
+        missing = [union[t] for t in union if t not in gs]
+        extra = [x for x in comp if tag_of(x) not in union]
+        if not missing and not extra:
+            res.traces_validated += 1
+        groups = {}
+        for x in missing:
+            groups.setdefault(classify_one(x, o, traces), []).append(x)
+        if extra:
+            groups.setdefault(None, []).extend(extra)
+        for key, items in groups.items():
+            res.violation("--project run %s: findings differ from the one-entry project runs: %s" % (o, [tag_of(x)[:90] for x in items][:3]),
+                          dict(files=proj["files"], order=o, opts=proj["opts"], defines=defs, mode="compile_commands.json",
+                               findings=[tag_of(x) for x in items]), concrete=True, key=key)
+    shutil.rmtree(d, ignore_errors=True)
+
+
 def load_witnesses():
     p = os.path.join(core.VERIF, "corpus", "C17", "witnesses.json")
     return json.load(open(p)) if os.path.exists(p) else []
@@ -850,6 +961,21 @@ def run(ctx, res):
     drv = ctx.driver("drv_c17")
     variant = detect_variant(ctx, res, info)
     res.extra["code_variant"] = variant
+    res.assumptions += [
+        "the analysis of one file (tokenizer, symbol database, value flow, checkers) is a function of that file, its includes and the "
+        "options: it is the parameter `analyze` of every theorem and is only sampled by the CLI tie",
+        "static state in lib/, cli/, simplecpp is what the scanner lists (evidence: statics_enumerated, 31 entries reviewed by hand in "
+        "corpus/C17/statics.json); none of it is proved not to influence a later file",
+        "admitted carried state: lib/cppcheck.cpp `detectedPythonExe` (python executable detected with the executeCommand of the first "
+        "file that runs an addon, reused for all later files) - addons are outside the model",
+        "admitted carried state: `Settings::mTerminated` (termination request; once set every later file returns at once) - a run-level "
+        "event, not a dependence on file content",
+        "Settings / Library are not written by CppCheck::check: both holders are `const Settings&` and no const_cast exists in "
+        "lib/cppcheck.cpp (obligation translation:settings-are-const); `mutable` members of Library / Settings are not examined here",
+        "H4 (staleRemarksOK) is believed to hold for every real trace (a finding reported before setRemarkComments is always followed by "
+        "`return`, and the remark comments left behind name files the earlier file contained); no witness was found, it is not proved",
+        "the Check singletons (lib/checks.cpp s_checks) keep no data between runChecks calls (runChecks builds a local object) - by reading",
+    ]
     rng = ctx.rng
     stats = res.count
     projects = []
@@ -863,7 +989,10 @@ def run(ctx, res):
     def work(item):
         k, (proj, orders) = item
         try:
-            return eval_project(ctx, res, drv, proj, variant, k, orders, extra_exec=thorough and k % 4 == 0)
+            out = eval_project(ctx, res, drv, proj, variant, k, orders, extra_exec=thorough and k % 4 == 0)
+            if orders is None and k % 2 == 0 and out and "traces" in out:
+                eval_filesettings(ctx, res, proj, k, out["traces"])
+            return out
         except core.CheckBroken as ex:
             return dict(broken=str(ex))
     import time
